@@ -307,10 +307,11 @@ class It(object):
         self.take = None
         self.enum = None        # next index
         self.order = []         # adaptor order for diagnostics
+        self.rev = False        # items are taken from the back
 
     def clone(self):
         n = It(self.idx, self.end, self.mut)
-        n.skip, n.take, n.enum, n.order = self.skip, self.take, self.enum, list(self.order)
+        n.skip, n.take, n.enum, n.order, n.rev = self.skip, self.take, self.enum, list(self.order), self.rev
         return n
 
 
@@ -957,6 +958,14 @@ class Interp(object):
                 raise Undecided("adaptor order skip after take/enumerate")
             if lin_parts(args[1]) is None:
                 raise Undecided("skip by a non-integer")
+            if it.rev:
+                ne = sub(it.end, args[1])
+                c_ = self.compare("Lt", ne, it.idx)
+                if c_ not in (0, 1):
+                    raise Undecided("skip on a reversed iterator of unknown length")
+                it.end = it.idx if c_ else ne
+                it.order.append("skip")
+                return it
             it.idx = add(it.idx, args[1])
             it.order.append("skip")
             return it
@@ -968,6 +977,13 @@ class Interp(object):
                 raise Undecided("take by a non-constant count")
             it.take = args[1]
             it.order.append("take")
+            return it
+        if c == "core::iter::Iterator::rev" and isinstance(args[0], It):
+            it = args[0].clone()
+            if it.take is not None or it.enum is not None or it.end is None:
+                raise Undecided("rev after take / enumerate, or over the open input")
+            it.rev = not it.rev
+            it.order.append("rev")
             return it
         if c == "core::iter::Iterator::enumerate" and isinstance(args[0], It):
             it = args[0].clone()
@@ -1221,6 +1237,16 @@ class Interp(object):
         if it.take is not None:
             if it.take == 0:
                 return Adt("core::option::Option", 0, "None", [])
+        if it.rev:
+            if it.end is None or it.take is not None or it.enum is not None:
+                raise Undecided("reversed iteration over an open piece of the buffer / combined with take or enumerate")
+            c_ = self.compare("Lt", it.idx, it.end)
+            if c_ not in (0, 1):
+                raise Undecided("reversed iteration over a piece of unknown length")
+            if not c_:
+                return Adt("core::option::Option", 0, "None", [])
+            it.end = sub(it.end, 1)
+            return Adt("core::option::Option", 1, "Some", [Ref(("byte", it.end))])
         ok = self.in_bounds(st, it.idx, it.end)
         if ok is None:
             raise Undecided("the byte iterator may end before byte %s: the bounds test does not cover it (known: LEN >= %s)" % (it.idx, st.len_lb))
